@@ -208,7 +208,10 @@ theorem prog_local (isInput outs : P → Prop) (W : Work L Z R) (r : Routine) (a
   | superpose =>
     simp only [prog]
     apply local_checked isInput outs W _ _ _ _ _ (hrd _ (by simp [Rd.path])) (hrd _ (by simp [Rd.path]))
-    intro obs res; exact local_export1 isInput outs W _ a obs res ha.out1
+    intro obs res
+    split
+    · exact local_export1 isInput outs W _ a obs res ha.out1
+    · simp only [LocalProg]; exact local_export1 isInput outs W _ a obs res ha.out1
   | align =>
     simp only [prog]
     apply local_checked isInput outs W _ _ _ _ _ (hrd _ (by simp [Rd.path])) (hrd _ (by simp [Rd.path]))
